@@ -158,6 +158,18 @@ class C16(Prop):
                     a, [x[0] for x in got][:4], [x[0] for x in want][:4]))
             elif any(x[1] != y[1] for x, y in zip(got, want)):
                 j.failures.append(label + 'signal observations of %s are not that day\'s close prices' % a)
+        # at the end of the session every window holds the most recent `maxlen` prices supplied for ITS asset (all of them if fewer)
+        fw = o.get('final_windows')
+        if fw and o['error'] is None and not label and not c.get('share_signals'):
+            if fw[0] == 'err':
+                j.failures.append('the windows of the tracked signal could not be read: %s' % fw[1])
+            else:
+                for key_, maxlen_, held_ in fw:
+                    a_ = key_.rsplit('_', 1)[0]
+                    supplied = [x[1] for x in o['signal_obs'].get(a_, [])]
+                    if held_ != supplied[-maxlen_:] and maxlen_:
+                        j.failures.append('window %s holds %s..., the last %d prices supplied for %s are %s...' % (key_, held_[:6], maxlen_, a_, supplied[-maxlen_:][:6]))
+                        break
         if o['warmup'] is not None and o['error'] is None and o['warmup'] != len(closes) and not (label and c.get('share_signals')):
             j.failures.append(label + 'warmup counter %s after %d market closes' % (o['warmup'], len(closes)))
         if o['signal_obs']:
